@@ -53,6 +53,17 @@ CHECKS.update({
     technique='fault injection at every byte offset (enumerated) over Hypothesis-generated exchanges, model-value oracle'),
 })
 
+CHECKS.update({
+ 'C08': dict(level='exploration', design='3/C08',
+    text='Generated hostile byte streams (random bytes; bit/byte/field-level mutants of valid frames incl. inconsistent length/count/offset/size fields; mixed with valid frames at any point of a session) fed to one in-process connection exactly as enip_srv_tcp feeds them: deterministic engine-step bound plus a retried watchdog (no hang), per-frame judgement of tag changes against the typed-array model where only frames the structural reference decoder accepts as complete well-formed writes may change tags, witness session and fresh registration afterwards; a TCP variant checks server thread, witness session and listener after every hostile connection. Exploration only. Four parser-tolerance findings are listed as known (known_findings.json).',
+    note='Trusted: CPython, Hypothesis, vp/refcodec.py in structural mode (lengths/counts/offsets/sizes must agree; reserved and pad byte values free), vp/model.py. The watchdog is the only clock-based signal and needs two consecutive 20 s timeouts.',
+    technique='structure-aware mutation fuzzing driven by Hypothesis with a model/decoder oracle inside the target'),
+ 'C10': dict(level='exploration', design='3/C10',
+    text='A catalogue of 96 parser-machine factories (framework primitives, regex/string machines, every scalar TYPE, strings, EPATH variants, status, typed data, encapsulation, commands, CPF and items, Unconnected Send, all registered service request/reply machines) x limit form (int / data path / callable / parsed length prefix / missing path) x placement x limit value x source wrapper and chunking, each run over a harness counting iterator: sent == symbols truly taken, success implies sent <= limit, limit >= len(E) identical to the unlimited run, repeat=k gives exactly k results; plus a deterministic sweep of every limit value for 29 fixed sentences. Exploration (exhaustive only within the sweep bounds).',
+    note='Trusted: CPython, Hypothesis, the struct-only encoder in vp/c10cat.py. Any exception counts as "it fails" (the statement allows it).',
+    technique='property-based testing over a machine catalogue with a counting-source oracle + bounded exhaustive limit sweep'),
+})
+
 PENDING = {}
 
 def main():
